@@ -187,7 +187,9 @@ class DataIterator(types.Recoverable, Iterator[_T]):
 
   @property
   def state(self) -> ShardConfig:
-    return dc.replace(self.config.state, start_index=self._index)
+    # Nothing is consumed yet right after a restore, keep the restored position.
+    start_index = max(self._index, self.config.state.start_index)
+    return dc.replace(self.config.state, start_index=start_index)
 
   def __next__(self) -> _T:
     """Iterates the data source given a shard index."""
